@@ -13,7 +13,9 @@ from vf.pool import ALL_VERSIONS
 from vf.run import Result
 
 
-OLD_ASM = ["2.0", "2.1", "2.2", "2.3", "2.4", "2.5", "2.6", "3.0", "3.1", "3.2", "3.3", "3.4", "3.5"]
+# PyPy's own magic numbers for the levels no CPython of ours matches (see c10.PYPY); code layout = the CPython level's
+OLD_PYPY = {"2.7pypy": 62218, "3.2pypy": 3187, "3.3pypy": 64, "3.5pypy": 112}
+OLD_ASM = ["2.0", "2.1", "2.2", "2.3", "2.4", "2.5", "2.6", "3.0", "3.1", "3.2", "3.3", "3.4", "3.5"] + sorted(OLD_PYPY)
 
 
 class ProgProp:
@@ -125,12 +127,12 @@ class ProgProp:
         layout and operand arithmetic below are this harness's"""
         key = ("asmtab-old", v)
         if key not in ctx.cache:
-            opc = rw.xd().disasm.get_opcode(ga.vt(v), False)
+            opc = rw.xd().disasm.get_opcode(ga.vt(v.replace("pypy", "")), v.endswith("pypy"))
             hasjrel, hasjabs = set(opc.hasjrel), set(opc.hasjabs)
             cats = dict((c_, set(getattr(opc, c_))) for c_ in ("hasconst", "hasname", "haslocal", "hasfree", "hascompare"))
             # which opcodes jump, and how, is taken from the family's real interpreter wherever the opcode still exists
             # there under the same name (2.7 for 2.x, 3.6 for 3.0-3.5): an independent source for the reference decode
-            fam = self.tables(ctx, "2.7" if ga.vt(v) < (3, 0) else "3.6")
+            fam = self.tables(ctx, "2.7" if ga.vt(v.replace("pypy", "")) < (3, 0) else "3.6")
             for name, num in opc.opmap.items():
                 if name in fam.opmap and num >= opc.HAVE_ARGUMENT:
                     fnum = fam.opmap[name]
@@ -145,7 +147,7 @@ class ProgProp:
                         cats[c_].discard(num)
                         if fnum in fset:
                             cats[c_].add(num)
-            ctx.cache[key] = ga.Tables(v, {
+            ctx.cache[key] = ga.Tables(v.replace("pypy", ""), {
                 "opmap": dict((n, c) for n, c in opc.opmap.items() if not n.startswith("<")),
                 "HAVE_ARGUMENT": opc.HAVE_ARGUMENT, "EXTENDED_ARG": opc.opmap["EXTENDED_ARG"],
                 "hasjrel": sorted(hasjrel), "hasjabs": sorted(hasjabs), "hasconst": sorted(cats["hasconst"]),
@@ -193,17 +195,18 @@ class ProgProp:
             if tgt is not None:
                 labels.add(tgt)
             ref.append((o, op, arg, tgt))
-        vt = ga.vt(v)
+        base_v = v.replace("pypy", "")
+        vt = ga.vt(base_v)
         py2 = vt < (3, 0)
         sk = "y" if py2 else "t"
         consts = ["T", [["i", str(k)] for k in range(ga.NTAB)]]
         names = ["n%d" % k for k in range(ga.NTAB)]
         varnames = ["v%d" % k for k in range(ga.NTAB)]
-        tree = rm.template_code_tree(v, consts, code=co_code, names=names, varnames=varnames)
+        tree = rm.template_code_tree(base_v, consts, code=co_code, names=names, varnames=varnames)
         tree[1]["co_cellvars"] = rm.names_tuple(["c%d" % k for k in range(8)], py2)
         tree[1]["co_freevars"] = rm.names_tuple(["f%d" % k for k in range(8)], py2)
-        payload, _ = rm.encode(tree, v)
-        hdr = struct.pack("<H", final_magics()[vt]) + b"\r\n" + b"\x01\x02\x03\x04" + (b"\x05\x00\x00\x00" if vt >= (3, 3) else b"")
+        payload, _ = rm.encode(tree, base_v)
+        hdr = struct.pack("<H", OLD_PYPY[v] if v in OLD_PYPY else final_magics()[vt]) + b"\r\n" + b"\x01\x02\x03\x04" + (b"\x05\x00\x00\x00" if vt >= (3, 3) else b"")
         x, err = pd.xdis_dump(hdr + payload, self.max_code(ctx))
         res.classes = ["version:" + v, "source:asmold"]
         res.sample = {"version": v, "kind": "assembled code object, harness decode as reference",
